@@ -89,13 +89,13 @@ def selector_cases(chk, rng, n):
                 try:
                     sel.select()
                     chk.fail("C11:RoundRobinSelector:alternation", "two selections in a row were accepted", {"case": case})
-                except AssertionError:
+                except Exception:  # noqa: BLE001 - any exception rejects the call
                     pass
                 sel.feedback(0.0)
                 try:
                     sel.feedback(0.0)
                     chk.fail("C11:RoundRobinSelector:alternation", "two feedbacks in a row were accepted", {"case": case})
-                except AssertionError:
+                except Exception:  # noqa: BLE001 - any exception rejects the call
                     pass
             if any(not 0 <= t < K for t in seq) or any(seq[j + 1] != (seq[j] + 1) % K for j in range(len(seq) - 1)):
                 chk.fail("C11:RoundRobinSelector:cycle", "round-robin selection is not a cycle over valid task ids", {"case": case, "sequence": seq})
@@ -103,10 +103,17 @@ def selector_cases(chk, rng, n):
             recs.append(("RoundRobinSelector", case, seq, None))
         else:
             gamma, zeta, ub = float(rng.choice([0.5, 0.9, 0.95])), float(rng.choice([0.002, 0.1])), float(rng.choice([1.0, 10.0]))
+            # every fourth bandit case is a long history with a discount close to 1: the 250-round window of the discounted
+            # counts and of the discounted rewards then matters (a count kept outside the window changes the decision)
+            long_run = (i // 2) % 4 == 1
+            if long_run:
+                K, gamma = max(K, 2), float(rng.choice([0.99, 0.995]))
+                tasks = np.arange(K)
+                case = {"selector": kind, "n_tasks": K, "gamma": gamma, "rounds": 2 * K + 300}
             # (a) the bandit itself: initial round robin over 2K rewards, then arg-max of discounted mean + padding
             ducb = DUCB(K, ub, gamma, zeta)
             chosen, rewards = [], []
-            for t in range(2 * K + 12):
+            for t in range(2 * K + (300 if long_run else 12)):
                 a = int(ducb.choose_arm())
                 if not 0 <= a < K:
                     chk.fail("C11:DUCB:valid-id", "chosen arm is out of range", {"case": case, "arm": a})
@@ -130,7 +137,7 @@ def selector_cases(chk, rng, n):
                              "maximising discounted mean reward plus exploration bonus)", {"case": case, "round": t, "chosen": a, "expected": exp,
                                                                                            "history": list(zip(chosen, rewards))})
                     break
-                if margin > 1e-6:
+                if margin > 1e-6 and (not long_run or (t > 245 and t % 6 == 0)):
                     hist_l = llit(list(zip(chosen, rewards)), lambda e: f"({nlit(e[0])}, {flit(e[1])})")
                     exprs.append(f"(sn (M.ducb_choose float_ops {flit(ub)} {flit(gamma)} {flit(zeta)} {nlit(K)} {hist_l}))")
                     recs.append(("DUCB.choose_arm", case, a, list(zip(chosen, rewards))))
@@ -152,13 +159,13 @@ def selector_cases(chk, rng, n):
                 try:
                     sel.select()
                     chk.fail("C11:DUCBGeneralized:alternation", "two selections in a row were accepted", {"case": case})
-                except AssertionError:
+                except Exception:  # noqa: BLE001 - any exception rejects the call
                     pass
                 sel.feedback(float(rng.integers(-4, 5)) / 4)
                 try:
                     sel.feedback(0.0)
                     chk.fail("C11:DUCBGeneralized:alternation", "two feedbacks in a row were accepted", {"case": case})
-                except AssertionError:
+                except Exception:  # noqa: BLE001 - any exception rejects the call
                     pass
             if len(set(picked[: 4 * K])) != K:
                 chk.fail("C11:DUCBGeneralized:initial-rounds", "not every task was selected in the initial rounds", {"case": case, "selected": picked})
@@ -169,13 +176,86 @@ def selector_cases(chk, rng, n):
         try:
             for o in ops:
                 sel.select() if o == "s" else sel.feedback(0.0)
-        except AssertionError:
+        except Exception:  # noqa: BLE001 - any exception rejects the call
             ok = False
         exprs.append("(so sb (M.sel_run false " + llit(ops, lambda o: "M.OpSelect" if o == "s" else "M.OpFeedback") + "))")
         recs.append(("TaskSelector", {"ops": ops}, sel.waiting_for_reward if ok else None, None))
     for (what, case, impl, hist), m in zip(recs, chk.model_eval(exprs, per_file=100)):
         if m != impl:
             chk.disagree(what, {"case": case, "impl": impl, "model": m, "history": hist})
+
+
+def onpolicy_cases(chk, rng, n):
+    """REINFORCE / actor-critic / A2C: the step budget is the documented threshold (collection continues to the end of the episode,
+    respectively of the rollout); the executed steps must equal what that rule gives for the scripted episode lengths, and a
+    finished episode is never stepped without reset."""
+    import gymnasium as gym
+    import optax
+    from flax import nnx
+    from rl_blox.algorithm.a2c import train_a2c
+    from rl_blox.algorithm.actor_critic import train_ac
+    from rl_blox.algorithm.reinforce import train_reinforce
+    from rl_blox.blox.function_approximator.mlp import MLP
+    from rl_blox.blox.function_approximator.policy_head import SoftmaxPolicy
+    from stubs import StepAfterDone
+    for i in range(n):
+        pol = SoftmaxPolicy(MLP(3, 2, [4], "relu", nnx.Rngs(i)))
+        vf = MLP(3, 1, [4], "relu", nnx.Rngs(i + 50))
+        po, vo = nnx.Optimizer(pol, optax.sgd(0.01), wrt=nnx.Param), nnx.Optimizer(vf, optax.sgd(0.01), wrt=nnx.Param)
+        script = [(int(rng.choice([1, 2, 3, 5])), str(rng.choice(["term", "trunc"]))) for _ in range(3)]
+        total, spu, tae = int(rng.choice([0, 1, 7, 15])), int(rng.choice([1, 4, 6])), bool(rng.integers(0, 2))
+        which = ["reinforce", "actor_critic", "a2c"][i % 3]
+        if which != "a2c":
+            env = ScriptEnv(script, discrete=2, reward_scale=0.25)
+            case = {"routine": "train_" + which, "script": script, "total_timesteps": total, "steps_per_update": spu, "train_after_episode": tae}
+            try:
+                (train_reinforce if which == "reinforce" else train_ac)(env, pol, po, vf, vo, seed=i, total_timesteps=total, steps_per_update=spu,
+                                                                        train_after_episode=tae, gamma=0.9, progress_bar=False)
+                raised = None
+            except StepAfterDone as e:
+                raised = str(e)
+            step, k = 0, 0
+            while step < total:
+                got = 0
+                while True:
+                    got += script[k % len(script)][0]
+                    k += 1
+                    if tae or got >= spu:
+                        break
+                step += got
+            n_steps = len(env.step_events())
+            n_resets = len([e for e in env.log if e[0] == "reset"])
+            chk.case(("onpolicy", str(case)), nontrivial=total > 0)
+            chk.count("onpolicy_runs_" + which)
+            if raised:
+                chk.fail(f"C11:train_{which}:step-after-done", "stepped a finished episode without reset", {"case": case, "raised": raised})
+            elif n_steps != step or n_resets != k:
+                chk.fail(f"C11:train_{which}:budget", "executed environment steps differ from the documented collection rule (whole episodes until at least "
+                         "steps_per_update samples, repeated while the counter is below total_timesteps)", {"case": case, "steps": n_steps, "expected": step,
+                                                                                                           "resets": n_resets, "expected_resets": k})
+        else:
+            N, T = int(rng.integers(1, 4)), int(rng.choice([1, 3, 5]))
+            scripts = [[(int(rng.choice([1, 2, 3, 5])), str(rng.choice(["term", "trunc"]))) for _ in range(3)] for _ in range(N)]
+            envs = gym.vector.SyncVectorEnv([(lambda s=scripts[j], j=j: ScriptEnv(s, env_id=j, discrete=2, reward_scale=0.25)) for j in range(N)])
+            case = {"routine": "train_a2c", "scripts": scripts, "total_timesteps": total, "steps_per_update": T, "n_envs": N}
+            try:
+                train_a2c(envs, pol, po, vf, vo, seed=i, total_timesteps=total, steps_per_update=T, log_frequency=None, progress_bar=False)
+                raised = None
+            except StepAfterDone as e:
+                raised = str(e)
+            iters = -(-total // (T * N))
+            chk.case(("onpolicy", str(case)), nontrivial=total > 0)
+            chk.count("onpolicy_runs_a2c")
+            if raised:
+                chk.fail("C11:train_a2c:step-after-done", "stepped a finished episode without reset", {"case": case, "raised": raised})
+                continue
+            for j in range(N):
+                lg = envs.envs[j].log
+                calls = len([e for e in lg if e[0] == "step"]) + len([e for e in lg if e[0] == "reset"]) - 1      # the first reset opens the run
+                if calls != iters * T:
+                    chk.fail("C11:train_a2c:budget", "vector-environment steps differ from ceil(total_timesteps / (steps_per_update * n_envs)) rollouts of steps_per_update steps",
+                             {"case": case, "env": j, "vector_steps": calls, "expected": iters * T})
+                    break
 
 
 def scheduler_cases(chk, rng, n):
@@ -277,6 +357,7 @@ def main(chk):
         elif n != m["step"] or resets != m["resets"]:
             chk.disagree("tabular-loop-skeleton", {"case": case, "impl": {"steps": n, "resets": resets}, "model": {"steps": m["step"], "resets": m["resets"]}})
     rollout_cases(chk, rng, 6 if q else 40)
+    onpolicy_cases(chk, rng, 6 if q else 60)
     selector_cases(chk, rng, 12 if q else 200)
     scheduler_cases(chk, rng, 6 if q else 100)
     r0 = recs[0]
@@ -289,4 +370,6 @@ def main(chk):
              "independent float64 decision rule; train_uts / train_active_mt with a contract-obeying stub routine; the five tabular routines on a "
              "scripted discrete environment (steps vs budget, no step after episode end, steps and resets vs the skeleton)",
         assumptions=["parameter updates are observed as changes of the online critic's parameters between consecutive env.step calls",
-                     "the discounted-UCB decision is compared only when the arg-max margin exceeds 1e-6", "SMT is exercised by the repository's own test only"])
+                     "the discounted-UCB decision is compared only when the arg-max margin exceeds 1e-6", "SMT is exercised by the repository's own test only",
+                     "reading for on-policy routines (REINFORCE, actor-critic, A2C): total_timesteps is the documented threshold - collection runs to the end of the "
+                     "episode / rollout - so the executed steps are compared with that rule, not with total_timesteps itself"])
